@@ -40,6 +40,14 @@ def firstAtom : Expr → Expr
   | .binary _ l _ => firstAtom l
   | e => e
 
+def Expr.isRegex : Expr → Bool
+  | .regex _ => true
+  | _ => false
+
+def Expr.isSet : Expr → Bool
+  | .set _ => true
+  | _ => false
+
 def Expr.isBinary : Expr → Bool
   | .binary _ _ _ => true
   | _ => false
@@ -118,8 +126,8 @@ def AtomsOK : Expr → Bool
   | .binary op l r =>
     AtomsOK l && AtomsOK r && isOperator op
       && (op != .div || (divAfter (printCtx false l).getLast? && divAfter (printCtx true l).getLast?))
-      && (if isRegexOp op then (match firstAtom r with | .regex _ => true | _ => false) && regexFirstOK true r
-          else if isInOp op then (match r with | .set _ => true | _ => false)
+      && (if isRegexOp op then (firstAtom r).isRegex && regexFirstOK true r
+          else if isInOp op then r.isSet
           else regexFirstOK false r && noSetFirst r)
       && noSetFirst l
 def AtomsOKArgs : Args → Bool
